@@ -6,6 +6,7 @@ import FordModel.ProcPrefix
 import FordModel.DeclLine
 import FordModel.SortComp
 import FordModel.CharSel
+import FordModel.ProcLine
 import FordModel.Generated.C18
 namespace Ford
 open Proto Html Show
@@ -54,6 +55,31 @@ def run (opt ncoll : Str) (fs : List Str) : List Str :=
       p.1 :: Proto.showNat p.2.length :: p.2.map (·.name)).flatten
 
 end Sort18
+
+/-! request of `c18.procline`: proto, module level, permission, counted attribs, proctype, name, counted argument
+    names, has result, result name, bindC.  Reply: the markup of `proc_line` (variant of the RESULT test as regenerated). -/
+namespace ProcLine18
+open Ford.ProcLine
+
+def takeN : Nat → List Str → Option (List Str × List Str)
+  | 0, fs => some ([], fs)
+  | n + 1, f :: fs => (takeN n fs).map fun p => (f :: p.1, p.2)
+  | _ + 1, [] => none
+
+def run (fs : List Str) : List Str :=
+  match fs with
+  | proto :: ml :: perm :: na :: rest =>
+    match takeN (natOf na) rest with
+    | some (attribs, proctype :: name :: nargs :: rest2) =>
+      match takeN (natOf nargs) rest2 with
+      | some (args, [rf, rn, bind]) =>
+        ["ok".toList, procLine Generated.C18.procLineResultCI (proto == ['1'])
+          ⟨ml == ['1'], perm, attribs, proctype, name, args, if rf == ['1'] then some rn else none, bind⟩]
+      | _ => ["bad-request".toList]
+    | _ => ["bad-request".toList]
+  | _ => ["bad-request".toList]
+
+end ProcLine18
 
 /-! request of `c18.cleanup`: kind, then counted lists (count first): argument names; the result
     (`-` or `N<name>`); interface procedures; items; attr_dict entries (key, counted attributes);
@@ -309,6 +335,8 @@ def dispatchC18 : List Str → Option (List Str)
       match args with
       | opt :: ncoll :: rest => some (Sort18.run opt ncoll rest)
       | _ => some ["bad-request".toList]
+    else if cmd == "c18.procline".toList then
+      some (ProcLine18.run args)
     else if cmd == "c18.charsel".toList then
       -- the parameters of a character selector (blanks removed, split at commas) -> length, kind
       match CharSel.charSel Generated.C18.charSelRules args none none with
